@@ -503,6 +503,23 @@ def step (st : St) : List String → St × String
         | _, _ => (st, "bad-op")
       | .error _ => (st, "bad-op")
     | none => (st, "bad-op")
+  | ["overwrite", fam, ex, ov] =>
+    -- write_*(x, name, fmt, overwrite) onto a path that holds a file (ex = T: a pickle of `false`, the old object) or
+    -- not, for a file family; the new object is `true`
+    let stored : Option (Stored Bool) :=
+      if fam == "asdf" then some (.asdf ⟨.null⟩) else if fam == "fits" then some (.fits ⟨none, .null⟩)
+      else if fam == "pickle" then some (.pickle true) else none
+    let flag : String → Option Bool := fun s => if s == "T" then some true else if s == "F" then some false else none
+    match stored, flag ex, flag ov with
+    | some w, some e, some o =>
+      let r := writeOver (if e then some (.pickle false) else none) o (.ok w)
+      let holds := match r.1 with
+        | none => "nothing" | some (.pickle false) => "old" | some _ => "new"
+      match r.2 with
+      | .ok _ => (st, "ok holds=" ++ holds)
+      | .error .fileExists => (st, "err os holds=" ++ holds)
+      | .error (.writer er) => (st, "err " ++ showErr er ++ " holds=" ++ holds)
+    | _, _, _ => (st, "bad-op")
   | ["guess", name] => (st, "ok " ++ fmtShown (guessFormat name.toList))
   | ["format", name, fmt] =>
     match formatOf name.toList (parseFmtArg fmt) with
